@@ -83,17 +83,27 @@ INT_DTYPE_CASES = True      # List.project on integer arrays (truncation fixed i
 # ---------------------------------------------------------------------------------------------------
 # region specs
 # ---------------------------------------------------------------------------------------------------
-def mk_region(r, maxiter=None):
+def mk_region(r, maxiter=None, shared=None):
+  """Build the region.  The FORM of the normal vectors is decided by the content of the whole region: Python lists, or float
+  ndarrays with ONE array object per distinct normal (a Slice, and two half spaces of an Intersection with the same normal, receive
+  the same object - a constructor must not modify what the caller passed)."""
   from device_kit import projection as pj
   k = r[0]
+  if shared is None:
+    shared = {} if int(core.case_hash({'r': repr(r)}), 16) % 2 else False
+
+  def normal(v):
+    if shared is False:
+      return fl(v)
+    return shared.setdefault(tuple(v), np.array(fl(v), dtype=float))
   if k == 'box':
     return pj.HyperCube(np.array(fl([list(b) for b in r[1]])).reshape(-1, 2) if r[1] else [])
   if k == 'half':
-    return pj.HalfSpace(fl(r[1]), float(r[2]), float(r[3]))
+    return pj.HalfSpace(normal(r[1]), float(r[2]), float(r[3]))
   if k == 'slice':
-    return pj.Slice(fl(r[1]), float(r[2]), float(r[3]))
+    return pj.Slice(normal(r[1]), float(r[2]), float(r[3]))
   if k == 'inter':
-    i = pj.Intersection(mk_region(r[1], maxiter), mk_region(r[2], maxiter))
+    i = pj.Intersection(mk_region(r[1], maxiter, shared), mk_region(r[2], maxiter, shared))
     if maxiter is not None:
       i._maxiter = maxiter
     return i
